@@ -719,6 +719,9 @@ static int dd_expr_primary(struct demangle_data *dd)
 
 	dd_type(dd);
 	dd_number(dd);
+	/* floating-point literals are written as lowercase hex digits */
+	while (isxdigit(dd_curr(dd)) && !isupper(dd_curr(dd)))
+		__dd_consume(dd, NULL);
 	if (dd_curr(dd) == '_') {
 		__dd_consume(dd, NULL);
 		dd_number(dd);
